@@ -11,6 +11,7 @@ def _conc(x):
         c = x.concrete()
         return bytes(c) if not isinstance(c, array.array) else c
     if isinstance(x, core.SymInt): return x.conc()
+    if isinstance(x, core.SymBool): return x.conc() if hasattr(x, 'conc') else bool(x)
     if isinstance(x, tuple): return tuple(_conc(y) for y in x)
     return x
 
@@ -69,6 +70,22 @@ def main(n=3000):
         def apr():
             b = bytearray(); b.append(x); b += struct.pack('>h', vals[0] if vals else 0); b.extend(array.array('B', uv)); return b
         bad += _same(ap, apr, 1); runs += 1
+    # bytes/bytearray methods of SymBuf
+    for _ in range(n // 3):
+        cur.b = bytes(rnd.choice([0, 1, 2]) for _ in range(rnd.randint(0, 10)))
+        cur.p = bytes(rnd.choice([0, 1, 2]) for _ in range(rnd.randint(0, 3)))
+        cur.w = rnd.randint(0, 14); cur.i = rnd.randint(-3, 12); cur.j = rnd.randint(-3, 12); cur.x = rnd.choice([0, 1, 2, 7])
+        for kind, T in (('bytes', bytes), ('bytearray', bytearray)):
+            mk = lambda: SymBuf(list(cur.b), kind); rl = lambda: T(cur.b)
+            for name, args in (('find', (cur.p,)), ('find', (cur.p, cur.i)), ('find', (cur.p, cur.i, cur.j)), ('find', (cur.x,)), ('index', (cur.p,)),
+                               ('count', (cur.x,)), ('endswith', (cur.p,)), ('startswith', (cur.p,)), ('ljust', (cur.w, b'\x00')), ('rjust', (cur.w, b'\x05')),
+                               ('ljust', (cur.w,))):
+                bad += _same(lambda: getattr(mk(), name)(*args), lambda: getattr(rl(), name)(*args), 1); runs += 1
+            bad += _same(lambda: cur.p in mk(), lambda: cur.p in rl(), 1); runs += 1
+            bad += _same(lambda: cur.x in mk(), lambda: cur.x in rl(), 1); runs += 1
+        def mut(b):
+            b.insert(cur.i, cur.x); b.reverse(); r = b.pop() if cur.j % 2 else b.pop(0); c = b.copy(); del b[0:1]; return bytes(c) + bytes([r]) + bytes(b)
+        bad += _same(lambda: mut(SymBuf(list(cur.b), 'bytearray')), lambda: mut(bytearray(cur.b)), 1); runs += 1
     bad += quot_conformance(); runs += 2000
     print('conformance: %d runs, %d mismatches' % (runs, bad))
     global RUNS
